@@ -210,7 +210,7 @@ func host(rng *hlib.Rng, roots []string) string {
 func main() {
 	r = hlib.Start()
 	r.Rule = "cases = (root list, host) calls of the real extractHostname + (root list, host, case-variant) pairs; non-trivial = distinct tuple; hosts: label.root in random letter case, deeper names, roots themselves, boundary-free suffixes, IPv4/IPv6 literals (in/out of range, mapped, zoned, trailing dot), random strings over letters/digits/hyphen/dot, printable ASCII; thorough adds every string of length <= 7 over {a,A,b,.,1}"
-	rng := hlib.NewRng(r.Seed)
+	rng := hlib.NewRng(hlib.NewRng(r.Seed).U64()) // re-seed through one output: consecutive seeds must not give shifted copies of one stream
 	if r.Replay != "" {
 		for _, t := range r.ReplayLines() {
 			switch t[0] {
